@@ -1084,6 +1084,21 @@ int main(int argc, char **argv) {
                         ctx.fail(std::string("value=") + specs[vi].name + " (members behind pointers" + (((ti + vi) & 1) ? "" : ", pointer root") + ") template " + tsrc,
                                  "rendered '" + gt + "', the plain tree renders '" + got + "'");
                     }
+                    if (((ti + vi) % 3) == 0) {
+                        // the other public overloads: terminated text, and the ones that return the stream by value
+                        StringStream<char> s1;
+                        Template::Render(tsrc.c_str(), v8[vi], s1);
+                        StringStream<char> s2 = Template::Render<StringStream<char>>(tsrc.c_str(), SizeT(tsrc.size()), v8[vi]);
+                        StringStream<char> s3 = Template::Render<StringStream<char>>(tsrc.c_str(), v8[vi]);
+                        ctx.acc.count("evals", 3);
+                        const std::string o1(s1.First() ? s1.First() : "", s1.Length()), o2(s2.First() ? s2.First() : "", s2.Length()),
+                            o3(s3.First() ? s3.First() : "", s3.Length());
+                        if (o1 != got || o2 != got || o3 != got) {
+                            ctx.fail(std::string("value=") + specs[vi].name + " (overloads) template " + tsrc,
+                                     "Render(content, value, stream) '" + o1 + "', Render<Stream>(content, length, value) '" + o2 + "', Render<Stream>(content, value) '" + o3 +
+                                         "', Render(content, length, value, stream) '" + got + "'");
+                        }
+                    }
                     std::string g32 = render<char32_t>(tsrc, v32[vi]);
                     if (g32 != got) {
                         ctx.fail(std::string("value=") + specs[vi].name + " char32_t template " + tsrc, "char32_t rendered '" + g32 + "', char rendered '" + got + "'");
